@@ -92,8 +92,40 @@ class _Ctx(object):
             raise AnalysisError('cookie call path changed: super().unserialize x%d, load_cookie x%d'
                                 % (len(self.sup_calls), len(self.load_calls)))
 
-    def fold(self, e):
-        return self.repo.try_fold(e, self.ck, _NOFOLD) if e is not None else _NOFOLD
+    def home(self, node, default=None):
+        """The module whose tree holds ``node``.  The anchors need not live in one module (a class moved into a private
+        module and imported back is analysed where it is defined now): free names are resolved, constants folded and
+        statements looked up in the module the code is written in, not in the module it is reached from."""
+        if node is not None:
+            for m in (self.ck, self.ju.mod, self.rq.mod, self.dep) + tuple(getattr(self.repo, '_mods', {}).values()):
+                if node in m.parents:
+                    return m
+        return default or self.ck
+
+    def stmt(self, node):
+        return node if isinstance(node, ast.stmt) else stmt_of(self.home(node), node)
+
+    def fold(self, e, mod=None):
+        return self.repo.try_fold(e, mod or self.home(e), _NOFOLD) if e is not None else _NOFOLD
+
+
+class _Located(object):
+    """The report as the rule groups see it: the module an obligation is located in is the one that holds its node."""
+
+    def __init__(self, rep, cx):
+        self._rep, self._cx = rep, cx
+
+    def __getattr__(self, name):
+        return getattr(self._rep, name)
+
+    def check(self, rule, key, ok, detail, mod=None, node=None):
+        return self._rep.check(rule, key, ok, detail, self._cx.home(node, mod) if mod is not None else None, node)
+
+    def ok(self, rule, key, detail, mod=None, node=None):
+        return self.check(rule, key, True, detail, mod, node)
+
+    def fail(self, rule, key, detail, mod=None, node=None):
+        return self.check(rule, key, False, detail, mod, node)
 
 
 def run(rep):
@@ -114,8 +146,9 @@ def run(rep):
         raise
     except Exception as e:
         raise AnalysisError('cookie module: anchors not recognised (%s: %s)' % (type(e).__name__, e))
+    located = _Located(rep, cx)
     for group in (rule_a, rule_b, rule_c, rule_d, rule_e, rule_g, rule_h):
-        rep.guard(_no_crash(group), rep, cx)
+        rep.guard(_no_crash(group), located, cx)
 
 
 def _no_crash(fn):
@@ -209,7 +242,7 @@ def rule_a(rep, cx):
     # decoding primitives clastic itself applies to what the client sent (the string handed to unserialize; in request(), anything
     # read from the request other than through the loaded cookie): each one under a handler of this function that does not re-raise
     from ..effects import Flow
-    lst = stmt_of(ck, load_call)
+    lst = cx.stmt(load_call)
     cvars = set(t.id for t in getattr(lst, 'targets', []) if isinstance(t, ast.Name))
     reqs = set(n.id for n in ast.walk(argn(load_call, 'request', 0) or ast.Constant(value=None)) if isinstance(n, ast.Name)) - {'self'}
     for fi, sources, boundary, skip in ((ju, set(ju.params()[1:2]), set(), []), (rq, reqs, cvars, [lst])):
@@ -224,7 +257,7 @@ def rule_a(rep, cx):
                 prim, operands = n.value, [n.value.func.value]
             if prim is None:
                 continue
-            at = stmt_of(ck, prim)
+            at = cx.stmt(prim)
             if not any(_derives(fl, o, at, sources, boundary, skip) for o in operands):
                 continue
             h = protected_by(fi, prim, 'ValueError')
@@ -324,14 +357,14 @@ def rule_b(rep, cx):
     ck, dep, repo = cx.ck, cx.dep, cx.repo
     rep.rule('R16.b', 'every call in JSONCookie.unquote is under except Exception -> UnquoteError')
     uq = ck.func('JSONCookie.unquote')
-    calls = [c for c in walk_body(uq.node) if isinstance(c, ast.Call) and not (isinstance(stmt_of(ck, c), ast.Raise))]
+    calls = [c for c in walk_body(uq.node) if isinstance(c, ast.Call) and not (isinstance(cx.stmt(c), ast.Raise))]
     n = 0
     for c in calls:
         if any(c is x for h in _all_handlers(uq) for x in ast.walk(h)):
             continue
         n += 1
         h = protected_by(uq, c, 'Exception')
-        ok = h is not None and all(raise_type(r) == 'UnquoteError' for r in ast.walk(h) if isinstance(r, ast.Raise)) \
+        ok = h is not None and all(_names_unquote_error(cx, uq, r) for r in ast.walk(h) if isinstance(r, ast.Raise)) \
             and handler_reraises_always(uq, h)
         rep.check('R16.b', fkey(uq, c), ok, 'failure of %s becomes UnquoteError' % short(c, 40) if ok else
                   '%s can raise something other than UnquoteError out of unquote (the dependency only expects UnquoteError)'
@@ -363,10 +396,29 @@ def rule_b(rep, cx):
                    if isinstance(c, ast.Call) and call_tail(c) in ('encode', 'decode') and isinstance(c.func, ast.Attribute))
     rep.check('R16.b', '%s::JSONCookie quote/unquote charset' % COOKIE, len(charsets) == 1, 'text is encoded and decoded with the same charset %s' % sorted(charsets) if len(charsets) == 1 else
               'quote()/unquote() use different charsets: %s' % sorted(map(str, charsets)), ck, qf.node)
-    k, m, ue = repo.resolve(ck, 'UnquoteError')
-    rep.check('R16.b', '%s::UnquoteError' % COOKIE, k == 'class' and m is dep, 'UnquoteError is the dependency\'s own class' if k == 'class' and m is dep else
-              'UnquoteError is not the class secure_cookie catches', ck)
+    # the class the handlers of unquote() raise under that name is the one the dependency's loop catches: the name is resolved
+    # in the module unquote() is written in (the class may have moved; the import goes with it)
+    raised = [r for h in _all_handlers(uq) for r in ast.walk(h) if isinstance(r, ast.Raise) and _names_unquote_error(cx, uq, r)]
+    if dep.classes.get('UnquoteError') is None:
+        raise AnalysisError('secure_cookie.cookie: class UnquoteError not found (model out of date)')
+    ok = bool(raised) and all(_raised_class(cx, uq, r) is dep.classes['UnquoteError'] for r in raised)
+    rep.check('R16.b', '%s::UnquoteError' % COOKIE, ok, 'UnquoteError is the dependency\'s own class' if ok else
+              'UnquoteError is not the class secure_cookie catches', uq.mod, raised[0] if raised else uq.node)
     _quote_total(rep, cx, qf, jc)
+
+
+def _raised_class(cx, fi, r):
+    """What ``raise X`` / ``raise X(..)`` names, resolved in the module the function is written in: ClassInfo or a text."""
+    if r.exc is None:
+        return None
+    return cx.repo.resolve_class(fi.mod, r.exc.func if isinstance(r.exc, ast.Call) else r.exc)
+
+
+def _names_unquote_error(cx, fi, r):
+    """The raise statement names the exception the dependency's MAC-then-unquote loop expects: by that name, or under
+    whatever name the module imports the dependency's class (whether it IS that class is an obligation of its own)."""
+    t = raise_type(r)
+    return t is not None and (t.rpartition('.')[2] == 'UnquoteError' or _raised_class(cx, fi, r) is cx.dep.classes.get('UnquoteError'))
 
 
 # quote() is total on everything unquote() can hand to the application: the text the serializer produces is put into
@@ -394,7 +446,7 @@ def _quote_total(rep, cx, qf, jc):
         if enc is None:
             continue
         text, a_cs, a_err = enc
-        at = stmt_of(ck, c)
+        at = cx.stmt(c)
         cls_ = _text_class(cx, fl, qf, jc, text, at)
         if cls_ is None:
             continue        # not serializer output (the serializer / codec obligations speak about that)
@@ -514,8 +566,10 @@ def _opaque_calls(cx, ci, fi):
         f = c.func
         if isinstance(f, ast.Attribute) and norm(f.value) in ('cls', 'self', ci.name) and _own_method(cx, ci, f.attr):
             out.append(norm(f))
-        elif isinstance(f, ast.Name) and cx.repo.resolve(cx.ck, f.id)[0] == 'func' and cx.repo.resolve(cx.ck, f.id)[1] is cx.ck:
-            out.append(f.id)
+        elif isinstance(f, ast.Name):
+            kind, m, _ = cx.repo.resolve(fi.mod, f.id)
+            if kind == 'func' and m is not None and not m.external:
+                out.append(f.id)
     return out
 
 
@@ -737,7 +791,7 @@ def rule_d(rep, cx):
     kf = _KeyFlow(cx, mw, init)
     atoms = []
     for s in sk:
-        atoms += kf.atoms(ck, init, s.value, None, PER_CALL, ())
+        atoms += kf.atoms(init.mod, init, s.value, None, PER_CALL, ())
     # every value self.secret_key may get is the constructor argument or a random key (os.urandom, written in place or
     # reached through methods / functions / lambdas / partials / class attributes / module-level names)
     randoms = []
@@ -773,7 +827,7 @@ def rule_d(rep, cx):
     pv = [s for s in stmts_of(init.node) if isinstance(s, ast.Assign) and any(norm(t) == 'self.provides' for t in s.targets)]
     ok = len(pv) == 1 and _only_arg_name(init, _follow(init, pv[0].value)) and not assigned_value(init.node, 'arg_name')
     rep.check('R16.d', fkey(init, 'self.provides'), ok, 'provides is exactly (arg_name,)' if ok else 'provides is not (arg_name,)', ck, init.node)
-    lst = stmt_of(ck, lcall)
+    lst = cx.stmt(lcall)
     cvar = lst.targets[0].id if isinstance(lst, ast.Assign) and lst.value is lcall and len(lst.targets) == 1 \
         and isinstance(lst.targets[0], ast.Name) else None
     if cvar is None:
@@ -791,10 +845,10 @@ def rule_d(rep, cx):
     cfg = cfg_of(rq)
     nd = next_derived(rq)
     saves = [c for c in walk_body(rq.node) if isinstance(c, ast.Call) and call_tail(c) == 'save_cookie']
-    nst = stmt_of(ck, ncalls[0]) if ncalls else None
+    nst = cx.stmt(ncalls[0]) if ncalls else None
     ok = bool(saves) and nst is not None and \
         all(norm(c.func.value) == cvar and norm(argn(c, 'response', 0)) in nd for c in saves) and \
-        cfg.must_pass(cfg.nodes_of_all([stmt_of(ck, c) for c in saves]), cfg.nodes_of(nst), cfg.exit, normal_only=True)
+        cfg.must_pass(cfg.nodes_of_all([cx.stmt(c) for c in saves]), cfg.nodes_of(nst), cfg.exit, normal_only=True)
     rep.check('R16.d', fkey(rq, 'save_cookie'), ok, 'cookie.save_cookie(<next() result>) runs on every normal path' if ok else
               'save_cookie on the next() result can be skipped', ck, saves[0] if saves else rq.node)
     ok = all(isinstance(r.value, ast.Name) and r.value.id in nd for r in returns_of(rq)) and returns_of(rq)
@@ -803,19 +857,34 @@ def rule_d(rep, cx):
         # ... and the names still hold it where they are used: the response the cookie is saved on is the one returned
         from ..effects import Flow
         fl = Flow(rq)
-        uses = [(argn(c, 'response', 0), stmt_of(ck, c)) for c in saves] + [(r.value, r) for r in returns_of(rq)]
+        uses = [(argn(c, 'response', 0), cx.stmt(c)) for c in saves] + [(r.value, r) for r in returns_of(rq)]
         stale = [(e, at) for e, at in uses if not (isinstance(e, ast.Name) and _holds_next_result(fl, e.id, at, nd, 0))]
         rep.check('R16.d', fkey(rq, 'one response'), not stale, 'the response the cookie is saved on and the response returned are the next() result' if not stale else
                   '%s no longer holds the next() result at %s (re-bound in between): the Set-Cookie header is put on a response that is not the one returned'
                   % (norm(stale[0][0]), short(stale[0][1], 40)), ck, stale[0][1] if stale else rq.node)
+    from ..effects import Flow as _Flow
+    sfl = _Flow(rq)
+    cnames = set(k for k in sfl.aliases(cvar) if '.' not in k)
     for s, absent_implied in _stamps(cx, rq, cvar):
         cs = conds(rq, s)
         excluded = _excluded_expiry(cx, rq, cs)
         numeric = all(any(_same_const(v, x) for x in excluded) for v in _markers(cx))
-        absent = absent_implied or any(_absent_cond(cx, t, p, cvar) for t, p in cs)
+        # where the cookie was consulted for each path condition that says "no _expires entry"
+        lookups = [x for x in (_absent_cond(cx, rq, sfl, t, p, cnames) for t, p in cs) if x is not None]
+        absent = absent_implied or bool(lookups)
         ok = numeric and absent
         rep.check('R16.d', fkey(rq, '_expires stamp'), ok, 'expiry is stamped only when absent and expiry is numeric' if ok else
                   '_expires is stamped unconditionally / for non-numeric expiry: %s' % '; '.join(cond_texts(cs)), ck, s)
+        if ok and not absent_implied:
+            # ... and "absent" is what the cookie says when it is stamped: between consulting the cookie and the stamp neither the
+            # endpoint runs nor anything else writes to the cookie (a test evaluated before next() knows nothing of a set_expires() there)
+            changed = [_changed_since(cx, rq, cnames, sts, s) for sts in lookups]
+            current = any(c is None for c in changed)
+            rep.check('R16.d', fkey(rq, '_expires stamp: absence is current'), current,
+                      'the cookie is consulted for _expires after the endpoint ran, nothing changes it before the stamp' if current else
+                      'whether _expires is absent is decided before %s runs, which can change the cookie: an expiry set there (the endpoint\'s '
+                      'cookie.set_expires(..)) is overwritten by the stamp -- the application\'s value no longer overrides the configured one'
+                      % short(changed[0], 50), ck, s)
     ok = bool(saves) and all(_saved_under(cx, rq, c) == 'self.cookie_name' for c in saves)
     rep.check('R16.d', fkey(rq, 'save key'), ok, 'cookie is saved under self.cookie_name' if ok else 'cookie is not saved under self.cookie_name', ck, rq.node)
     for s, _ in _stamps(cx, rq, cvar):
@@ -1283,7 +1352,7 @@ def _constructor_built(cx, fi, src):
     for l in layers:
         if 'key' in l.keys:
             v = l.values.get('key')
-            at = l.node if isinstance(l.node, ast.stmt) else stmt_of(cx.ck, l.node)
+            at = l.node if isinstance(l.node, ast.stmt) else cx.stmt(l.node)
             out.append((_request_time_text(mw, init, v, at) if v is not None and at is not None else None, l.below))
     return out
 
@@ -1347,10 +1416,10 @@ def _is_clock(cx, f):
     if norm(f) in CLOCKS:
         return True
     if isinstance(f, ast.Name):
-        kind, _, obj = cx.repo.resolve(cx.ck, f.id)
+        kind, _, obj = cx.repo.resolve(cx.home(f), f.id)
         return kind == 'external' and obj in CLOCKS
     if isinstance(f, ast.Attribute) and isinstance(f.value, ast.Name):
-        kind, _, obj = cx.repo.resolve(cx.ck, f.value.id)
+        kind, _, obj = cx.repo.resolve(cx.home(f), f.value.id)
         return kind == 'module' and isinstance(obj, str) and '%s.%s' % (obj, f.attr) in CLOCKS
     return False
 
@@ -1404,11 +1473,94 @@ def _stamps(cx, fi, cvar):
     return out
 
 
-def _absent_cond(cx, t, pol, cvar):
-    """``'_expires' not in cookie`` holds / ``'_expires' in cookie`` does not hold (key through module constants)."""
-    if not (isinstance(t, ast.Compare) and len(t.ops) == 1 and norm(t.comparators[0]) in (cvar, cvar + '.keys()') and cx.fold(t.left) == EXPIRES):
+def _absent_cond(cx, fi, fl, t, pol, names):
+    """Does the path condition (t, pol) say that the cookie (held in one of the locals ``names``) has no expiry entry?
+    -> the statements in which the cookie is consulted for it, None when the condition says nothing of the kind.
+      * ``'_expires' not in cookie`` holds / ``'_expires' in cookie`` does not hold (key through module constants);
+      * ``cookie.get('_expires', S) is S`` holds / ``... is not S`` does not hold -- in place, or through a local every
+        definition of which (reaching the test) is that lookup -- where S is a sentinel no cookie can contain: a module-level
+        name bound once, to ``object()``.  (``None`` is not such a value: the application can store it.)"""
+    if not (isinstance(t, ast.Compare) and len(t.ops) == 1):
+        return None
+    op, l, r = t.ops[0], t.left, t.comparators[0]
+    if isinstance(op, (ast.In, ast.NotIn)):
+        if not (any(norm(r) in (n, n + '.keys()') for n in names) and cx.fold(l) == EXPIRES):
+            return None
+        return [cx.stmt(t)] if isinstance(op, ast.NotIn) is pol else None
+    if not isinstance(op, (ast.Is, ast.IsNot)) or isinstance(op, ast.Is) is not pol:
+        return None
+    at = cx.stmt(t)
+    for probe, sent in ((l, r), (r, l)):
+        if not _is_sentinel(cx, fi, fl, sent):
+            continue
+        if isinstance(probe, ast.Name) and probe.id in fl.defs and probe.id not in fi.params():
+            ds = fl.reaching(probe.id, at)
+            if ds and all(d.kind == 'assign' and d.idx is None and _expiry_lookup(cx, d.value, sent, names) for d in ds):
+                return [d.stmt for d in ds]
+        elif _expiry_lookup(cx, probe, sent, names):
+            return [at]
+    return None
+
+
+def _expiry_lookup(cx, e, sent, names):
+    """``cookie.get('_expires', S)`` with the sentinel named by ``sent`` as the default."""
+    if not (isinstance(e, ast.Call) and isinstance(e.func, ast.Attribute) and e.func.attr == 'get' and norm(e.func.value) in names):
         return False
-    return (isinstance(t.ops[0], ast.NotIn) and pol is True) or (isinstance(t.ops[0], ast.In) and pol is False)
+    if any(isinstance(a, ast.Starred) for a in e.args) or any(k.arg is None for k in e.keywords):
+        return False
+    k, d = argn(e, 'key', 0), argn(e, 'default', 1)
+    return k is not None and cx.fold(k) == EXPIRES and isinstance(d, ast.Name) and d.id == sent.id
+
+
+def _is_sentinel(cx, fi, fl, e):
+    """A module-level name bound exactly once, to a new ``object()``, never re-bound by a function (``global``): an object
+    that is in no cookie, so that getting it back from ``.get(key, S)`` means the key is absent."""
+    if not isinstance(e, ast.Name) or e.id in fl.defs or e.id in _all_params(fi.node):
+        return False
+    kind, m, vals = cx.repo.resolve(fi.mod, e.id)
+    if kind != 'value' or m is None or not isinstance(vals, list) or len(vals) != 1:
+        return False
+    v = vals[0]
+    if not (isinstance(v, ast.Call) and isinstance(v.func, ast.Name) and v.func.id == 'object' and not v.args and not v.keywords):
+        return False
+    own = [k for k, x in m.assigns.items() if any(y is v for y in x)]
+    return not any(isinstance(g, ast.Global) and set(own) & set(g.names) for g in ast.walk(m.tree))
+
+
+READ_ONLY_METHODS = ('get', 'keys', 'values', 'items', 'copy', '__contains__', '__getitem__', '__len__', '__iter__')
+
+
+def _changed_since(cx, fi, names, lookup_stmts, stamp):
+    """The first thing on a path from one of ``lookup_stmts`` to the stamp that can change the cookie's entries -- a call of
+    next() (the endpoint), a write of the middleware to the cookie, a call the cookie is handed to or a method of it that
+    is not a plain read; None when there is nothing of the kind."""
+    cfg = cfg_of(fi)
+    stamp_nodes = set(cfg.nodes_of(stamp))
+    srcs = [m for st in lookup_stmts for n in cfg.nodes_of(st) for m in cfg.succ[n]]
+    region = (cfg.reach(srcs) & cfg.coreach(stamp_nodes)) - stamp_nodes
+    writes = set(id(st) for _, st in _cookie_writes(fi, names))
+    for nid in sorted(region):
+        nd = cfg.nodes[nid]
+        if nd.kind not in ('stmt', 'head') or nd.stmt is None:
+            continue
+        st = nd.stmt
+        if nd.kind == 'stmt' and id(st) in writes:
+            return st
+        hosts = [st] if nd.kind == 'stmt' else [x for x in ([getattr(st, f, None) for f in ('test', 'iter')] +
+                                                             [it.context_expr for it in getattr(st, 'items', [])]) if isinstance(x, ast.AST)]
+        for h in hosts:
+            for c in ast.walk(h):
+                if not isinstance(c, ast.Call):
+                    continue
+                if isinstance(c.func, ast.Name) and c.func.id == 'next':
+                    return c
+                if isinstance(c.func, ast.Attribute) and norm(c.func.value) in names:
+                    if c.func.attr not in READ_ONLY_METHODS:
+                        return c
+                    continue
+                if any(isinstance(x, ast.Name) and x.id in names for a in list(c.args) + [k.value for k in c.keywords] for x in ast.walk(a)):
+                    return c
+    return None
 
 
 def _markers(cx):
@@ -1772,16 +1924,16 @@ def rule_g(rep, cx):
     fl = Flow(rq)
     cfg = cfg_of(rq)
     lcall = cx.load_calls[0]
-    lst = stmt_of(ck, lcall)
+    lst = cx.stmt(lcall)
     cvar = lst.targets[0].id if isinstance(lst, ast.Assign) and lst.value is lcall and len(lst.targets) == 1 and isinstance(lst.targets[0], ast.Name) else None
     ncalls = [c for c in walk_body(rq.node) if isinstance(c, ast.Call) and isinstance(c.func, ast.Name) and c.func.id == 'next']
     saves = [c for c in walk_body(rq.node) if isinstance(c, ast.Call) and call_tail(c) == 'save_cookie']
     if cvar is None or len(ncalls) != 1 or not saves:
         raise AnalysisError('SignedCookieMiddleware.request: load / next / save_cookie not found in the expected roles')
-    nst = stmt_of(ck, ncalls[0])
+    nst = cx.stmt(ncalls[0])
     names = set(k for k in fl.aliases(cvar) if '.' not in k)
     for what, c in [('provided', ncalls[0])] + [('saved', c) for c in saves]:
-        at = stmt_of(ck, c)
+        at = cx.stmt(c)
         used = [n.id for n in ast.walk(c) if isinstance(n, ast.Name) and n.id in names] or [cvar]
         ds = [d for nm in used for d in fl.reaching(nm, at)]
         # (or, where the middleware itself guards the load: the empty cookie of the configured type, with the middleware's key)
@@ -1810,7 +1962,7 @@ def rule_g(rep, cx):
                       % short(t[0], 50), ck, ef.node)
             n_ok += 1
     for c in saves:
-        at = stmt_of(ck, c)
+        at = cx.stmt(c)
         srcs = []
         for nm, pos in (('expires', 2), ('session_expires', 3)):
             a = argn(c, nm, pos)
@@ -1821,7 +1973,7 @@ def rule_g(rep, cx):
                 continue
             layers = layers_of_var(rq.node, k.value.id) if isinstance(k.value, ast.Name) else layers_of_expr(k.value)
             for l in layers:
-                lat = l.node if isinstance(l.node, ast.stmt) else stmt_of(ck, l.node)
+                lat = l.node if isinstance(l.node, ast.stmt) else cx.stmt(l.node)
                 if l.keys is not None:
                     srcs += [(nm, l.values[nm], lat) for nm in ('expires', 'session_expires') if l.values.get(nm) is not None]
                 else:
